@@ -11,8 +11,8 @@ import BezierVerif.Model.Curve
 * the linear solver is a parameter (`solve`), instantiated with the transcription of `solve2x2`;
 * `rnd` is applied to the iterates after every update (identity for the theorems; a dyadic rounding
   in the driver, because exact rational Newton iterates grow five-fold in bit length per step);
-* the two implementations differ in the "linear convergence" cut: Python tests
-  `index ≥ 4 ∧ 3·lu ≥ 2·index` (0-based), Fortran `i ≥ 5 ∧ 3·lu ≥ 2·i` (1-based): `Py.cut`, `F90.cut`.
+* the "linear convergence" cut: Python tests `index ≥ 4 ∧ 3·lu ≥ 2·(index+1)` (0-based; repaired in `ab67aa1`, before that
+  `3·lu ≥ 2·index`: `Py.cutOld`), Fortran `i ≥ 5 ∧ 3·lu ≥ 2·i` (1-based): `Py.cut`, `F90.cut` (equal as functions).
 -/
 
 namespace BezierVerif.Model
@@ -81,7 +81,12 @@ def newtonDouble (thr : Nat) (n1 n2 : List (List K)) : NewtonEval K := fun s t =
     some ((a, b, b, d), (e, f))
 
 /-- the "converging only linearly" cut of the Python loop (`index` 0-based) -/
-def Py.cut (index lu : Nat) : Bool := decide (index ≥ 4) && decide (3 * lu ≥ 2 * index)
+def Py.cut (index lu : Nat) : Bool := decide (index ≥ 4) && decide (3 * lu ≥ 2 * (index + 1))
+
+/-- HISTORICAL (tree before the repair `ab67aa1`): the Python loop compared with `2 * index` although `index + 1` updates
+have occurred, and gave up one step early at the counter states (4,3), (6,4), (7,5), (9,6).  Kept only for the decided
+counter-examples; not reachable from the driver. -/
+def Py.cutOld (index lu : Nat) : Bool := decide (index ≥ 4) && decide (3 * lu ≥ 2 * index)
 /-- the same test in the Fortran loop (`i = index + 1`) -/
 def F90.cut (index lu : Nat) : Bool := decide (index + 1 ≥ 5) && decide (3 * lu ≥ 2 * (index + 1))
 
